@@ -55,54 +55,96 @@ N_BIN = {'quick': 10, 'thorough': 160}
 N_LAZY = {'quick': 16, 'thorough': 320}
 
 # ------------------------------------------------------------------------------------------ witnesses in text
-# a keyvalue line that ends in a dangling colon: `name(type) [readonly ][report ]: `
-RE_DANGLING_KV = re.compile(r'^\t[^\t\n"]*\([^)\n]*\) (?:readonly )?(?:report )?: $', re.M)
-# a choices line `value: ` with nothing after the colon
-RE_DANGLING_CHOICE = re.compile(r'^\t\t(?:"[^"\n]*"|[^\s":]+): $', re.M)
+# a keyvalue line that ends in a dangling colon: `name(type) [readonly ][report ]: ` (choices: `:  =`)
+RE_DANGLING_KV = re.compile(r'^\t[^\t\n"]*\([^)\n]*\) (?:readonly )?(?:report )?: (?: =)?$', re.M)
+# a choices line `value: ` with nothing (or only tags) after the colon
+RE_DANGLING_CHOICE = re.compile(r'^\t\t(?:"[^"\n]*"|[^\s":]+): (?: \[[^\]\n]*\])?$', re.M)
 # a '+'-continued section whose closing quote is preceded by an odd number of backslashes
 RE_SPLIT_ESCAPE = re.compile(r'(?<!\\)(?:\\\\)*\\" \+$', re.M)
+NEEDS_ESCAPE = '"\\\n\r'
+WITNESS_RE = (('empty-display-name', RE_DANGLING_KV), ('empty-choice-name', RE_DANGLING_CHOICE),
+              ('longstring-splits-escape', RE_SPLIT_ESCAPE))
 
 
-def text_witnesses(text: str) -> List[str]:
-    out = []
-    if RE_DANGLING_KV.search(text):
-        out.append('empty-display-name')
-    if RE_DANGLING_CHOICE.search(text):
-        out.append('empty-choice-name')
-    if RE_SPLIT_ESCAPE.search(text):
-        out.append('longstring-splits-escape')
+def find_witnesses(text: str, snaps: Optional[Dict[str, dict]]) -> List[Tuple[int, str]]:
+    """Writer-side witnesses visible in the exported text: (offset, mechanism)."""
+    out: List[Tuple[int, str]] = []
+    for key, pat in WITNESS_RE:
+        for m in pat.finditer(text):
+            out.append((m.start(), key))
+    if snaps is not None:
+        for snap in snaps.values():
+            for _, variants in snap['kv']:
+                for _, kv in variants:
+                    d = kv['default']
+                    if d and any(c in d for c in NEEDS_ESCAPE):
+                        i = text.find(f' : "{d}"')     # the raw value, verbatim between quotes
+                        if i >= 0:
+                            out.append((i, 'value-written-unescaped'))
+                    if kv['type'] == 'CHOICES':
+                        for item in kv['val_list'] or []:
+                            v = item[0]
+                            if any(c in v for c in NEEDS_ESCAPE):
+                                i = text.find(f'\t\t"{v}": ')
+                                if i >= 0:
+                                    out.append((i, 'value-written-unescaped'))
+    out.sort()
     return out
 
 
-def classify_text(text: str, diff: Optional[Tuple[str, Any, Any]], err: Optional[str], custom: bool) -> str:
-    """Mechanism from the witness: first what the writer visibly did wrong in the text, then which field differs."""
-    wit = text_witnesses(text)
-    if wit:
-        return wit[0]
+def entity_block(text: str, classname: str) -> Tuple[int, int]:
+    m = re.search(r'= ' + re.escape(classname) + r'(?::|\n)', text)
+    if not m:
+        return (0, len(text))
+    start = text.rfind('\n@', 0, m.start())
+    end = text.find('\n@', m.end())
+    return (max(0, start), len(text) if end < 0 else end)
+
+
+def classify_text(text: str, snaps: Optional[Dict[str, dict]], diff: Optional[Tuple[str, Any, Any]],
+                  err_line: Optional[int], classname: Optional[str]) -> Tuple[str, int]:
+    """Mechanism from the witness: what the writer visibly did wrong near the failure, else which field differs.
+
+    Returns (key, offset of the witness in the text or -1)."""
+    wit = find_witnesses(text, snaps)
+    if err_line is not None:
+        # the closest witness at or before the line the reader gave up on
+        limit = _line_offset(text, err_line + 1)
+        near = [(p, k) for p, k in wit if p < limit]
+        if near:
+            return near[-1][1], near[-1][0]
+        return 'export-unparseable', -1
     if diff is not None:
         path, want, got = diff
-        field = path.rsplit('.', 1)[-1]
-        field = re.sub(r'\[.*$', '', field)
-        if field == 'default' and isinstance(want, str) and any(c in want for c in '"\\\n\r\t\v\b\f\a'):
-            return 'value-written-unescaped'
-        if 'val_list' in path and isinstance(want, str) and any(c in want for c in '"\\'):
-            return 'value-written-unescaped'
+        if classname is not None:
+            lo, hi = entity_block(text, classname)
+            inside = [(p, k) for p, k in wit if lo <= p < hi]
+            if inside:
+                return inside[0][1], inside[0][0]
+        field = re.sub(r'\[.*$', '', path.rsplit('.', 1)[-1])
         if field == 'is_alias':
-            return 'alias-exported-as-base'
-        return 'text-field-lost:' + (field or 'entity')
-    if err is not None:
-        if 'export' in err:
-            return 'export-raises'
-        return 'export-unparseable'
-    return 'second-export-differs'
+            return 'alias-exported-as-base', -1
+        if field == 'default' and isinstance(want, str) and any(c in want for c in NEEDS_ESCAPE + '\t\v\b\f\a'):
+            return 'value-written-unescaped', -1
+        return 'text-field-lost:' + (field or 'entity'), -1
+    return 'second-export-differs', -1
 
 
-def excerpt(text: str, pattern: Optional[re.Pattern], width: int = 160) -> str:
-    if pattern is not None:
-        m = pattern.search(text)
-        if m:
-            return text[max(0, m.start() - width):m.end() + width]
-    return text[:2 * width]
+def _line_offset(text: str, line: int) -> int:
+    """Offset of the start of 1-based `line` (len(text) if beyond)."""
+    pos = 0
+    for _ in range(max(0, line - 1)):
+        nxt = text.find('\n', pos)
+        if nxt < 0:
+            return len(text)
+        pos = nxt + 1
+    return pos
+
+
+def around(text: str, pos: int, width: int = 200) -> str:
+    if pos < 0:
+        return text[:2 * width]
+    return text[max(0, pos - width):pos + width]
 
 
 # ------------------------------------------------------------------------------------------ text round trip
@@ -112,7 +154,7 @@ def parse_text(text: str, as_bytes: bool) -> Any:
     data: Any = text.encode('cp1252') if as_bytes else text
     fsys = VirtualFileSystem({'gen.fgd': data})
     fgd = FGD()
-    fgd.parse_file(fsys, fsys['gen.fgd'])
+    fgd.parse_file(fsys, fsys['gen.fgd'], ignore_unknown_valuetype=True)   # custom type names are kept as str
     return fgd
 
 
@@ -129,28 +171,26 @@ def text_roundtrip(run, fgd: Any, custom: bool, label: bool, as_bytes: bool, eng
     after = G.snap_fgd(fgd)
     if after != before:
         d = G.first_diff(before, after)
-        run.violation(f'export changed the definitions at {d[0]}', witness={'diff': d}, case=case, engine=engine,
-                      key='export-mutates')
+        run.violation(f'export changed the definitions at {d[0]}', witness={'diff': _clip(d, 600)}, case=case,
+                      engine=engine, key='export-mutates')
     ok = True
     try:
         parsed = parse_text(text, as_bytes)
         run.count('parses')
     except Exception as exc:
         err = f'{type(exc).__name__}: {exc}'
-        key = classify_text(text, None, err, custom)
-        pat = {'empty-display-name': RE_DANGLING_KV, 'empty-choice-name': RE_DANGLING_CHOICE,
-               'longstring-splits-escape': RE_SPLIT_ESCAPE}.get(key)
         line = getattr(exc, 'line_num', None)
-        near = ''
-        if pat is None and isinstance(line, int):
-            near = '\n'.join(text.split('\n')[max(0, line - 4):line + 1])[-600:]
+        if not isinstance(line, int):
+            line = text.count('\n') + 1
+        key, pos = classify_text(text, before, None, line, None)
+        near = around(text, pos) if pos >= 0 else '\n'.join(text.split('\n')[max(0, line - 4):line + 1])[-600:]
         run.violation(f'exported text does not re-parse: {err[:300]}',
-                      witness={'text_excerpt': near or excerpt(text, pat), 'error': err[:500]},
-                      case=case, engine=engine, key=key)
+                      witness={'text_excerpt': near, 'error': err[:500]}, case=case, engine=engine, key=key)
         return text, False
     got = G.snap_fgd(parsed)
     # -------- field by field
     n_cmp = 0
+    excused: Dict[str, int] = {}
     for key_cf, snap in before.items():
         if only is not None and key_cf not in only:
             continue
@@ -160,25 +200,25 @@ def text_roundtrip(run, fgd: Any, custom: bool, label: bool, as_bytes: bool, eng
         if have is None:
             d: Optional[Tuple[str, Any, Any]] = ('', snap['classname'], '<entity missing after parse>')
         else:
-            d = G.first_diff(want, have)
+            d = G.first_diff(want, have, skip=None if custom else G.classic_skip(excused))
         if d is not None:
             ok = False
-            mkey = classify_text(text, d, None, custom)
-            pat = {'empty-display-name': RE_DANGLING_KV, 'empty-choice-name': RE_DANGLING_CHOICE,
-                   'longstring-splits-escape': RE_SPLIT_ESCAPE}.get(mkey)
+            mkey, pos = classify_text(text, before, d, None, snap['classname'])
             run.violation(f'{snap["classname"]}{d[0]}: expected {_clip(d[1])!r}, parsed back {_clip(d[2])!r}',
                           witness={'entity': snap['classname'], 'path': d[0], 'expected': _clip(d[1], 700),
-                                   'got': _clip(d[2], 700), 'text_excerpt': excerpt(text, pat) if pat else
-                                   _ent_excerpt(text, snap['classname'])},
+                                   'got': _clip(d[2], 700),
+                                   'text_excerpt': around(text, pos) if pos >= 0 else _ent_excerpt(text, snap['classname'])},
                           case=case, engine=engine, key=mkey)
             break  # one witness per case is enough; later entities often only echo the first
-    if only is None:
+    if only is None and ok:
         extra = set(got) - set(before)
-        if extra and ok:
+        if extra:
             ok = False
             run.violation(f'entities appeared from nowhere: {sorted(extra)[:5]}', case=case, engine=engine,
-                          key=classify_text(text, None, None, custom) if text_witnesses(text) else 'text-extra-entity')
+                          key='text-extra-entity')
     run.count('entities_compared', n_cmp)
+    if excused.get('n'):
+        run.count('classic_syntax_uncarried_strings', excused['n'])
     # -------- fixed point
     if ok:
         try:
@@ -191,9 +231,12 @@ def text_roundtrip(run, fgd: Any, custom: bool, label: bool, as_bytes: bool, eng
         if text2 != text:
             ok = False
             k = next((i for i, (a, b) in enumerate(zip(text, text2)) if a != b), min(len(text), len(text2)))
+            # the only difference is the line break the writer puts after a helper list it did not write
+            squash = (lambda t: t.replace(' \n= ', ' = '))
+            mkey = 'header-newline-for-skipped-helpers' if squash(text) == squash(text2) else 'second-export-differs'
             run.violation(f'second export differs from the first at offset {k}',
                           witness={'first': text[max(0, k - 200):k + 200], 'second': text2[max(0, k - 200):k + 200]},
-                          case=case, engine=engine, key='second-export-differs')
+                          case=case, engine=engine, key=mkey)
     return text, ok
 
 
@@ -302,10 +345,12 @@ def binary_roundtrip(run, fgd: Any, engine: str, case: Any) -> bool:
     from srctools import _engine_db as E
     before = G.snap_fgd(fgd)
     buf = io.BytesIO()
+    log = ''
     try:
-        with quiet_stdout(), warnings.catch_warnings():
+        with quiet_stdout() as out, warnings.catch_warnings():
             warnings.simplefilter('ignore')
             E.serialise(fgd, buf)
+        log = out.getvalue()
         run.count('serialise_calls')
     except Exception as exc:
         run.violation(f'serialise raised {type(exc).__name__}: {exc}', case=case, engine=engine, key='serialise-raises')
@@ -322,8 +367,16 @@ def binary_roundtrip(run, fgd: Any, engine: str, case: Any) -> bool:
     ok = True
     if set(got) != set(before):
         ok = False
-        run.violation(f'entity set changed: missing {sorted(set(before) - set(got))[:4]}, extra {sorted(set(got) - set(before))[:4]}',
-                      case=case, engine=engine, key='binary-entity-set')
+        missing = sorted(set(before) - set(got))
+        # serialise reports how many entities it put into "overflow blocks" and how many blocks it wrote
+        m = re.search(r'^(\d+) ents in overflow blocks', log, re.M)
+        overflow = int(m.group(1)) if m else 0
+        mkey = 'binary-overflow-block-dropped' if missing and overflow >= len(missing) and not (set(got) - set(before)) \
+            else 'binary-entity-set'
+        run.violation(f'entity set changed: missing {missing[:4]}, extra {sorted(set(got) - set(before))[:4]}',
+                      witness={'missing': missing[:20], 'serialise_log_tail': log[-400:]},
+                      case=case, engine=engine, key=mkey)
+        return False
     for key_cf, snap in before.items():
         if key_cf not in got:
             continue
@@ -396,7 +449,9 @@ def lazy_reference() -> Dict[str, dict]:
     """Snapshots (with resolved bases, recursively) from a fully loaded database."""
     if 'snaps' not in _REF:
         full = fresh_db().get_fgd()
-        _REF['snaps'] = {k: deep_snap(e, {}) for k, e in full.entities.items()}
+        memo: Dict[int, Any] = {}
+        _REF['full'] = full   # keeps the objects (and so their id()s) alive while the memo is in use
+        _REF['snaps'] = {k: deep_snap(e, memo) for k, e in full.entities.items()}
     return _REF['snaps']
 
 
@@ -522,7 +577,10 @@ def fixed_fgds() -> List[Tuple[str, Any, bool]]:
         one('nospace_1500_' + c, custom, F.KVDef('k', VT.STRING, 'K', '', 'x' * 1500))
         one('words_2500_' + c, custom, F.KVDef('k', VT.STRING, 'K', '', ' '.join(['word'] * 500)))
     one('quote_at_cut', True, F.KVDef('k', VT.STRING, 'K', '', 'a' * 999 + '"' + 'b' * 50))
-    one('newline_at_cut', True, F.KVDef('k', VT.STRING, 'K', '', 'a' + '\t' * 600 + 'b'))
+    one('tabs_at_cut', True, F.KVDef('k', VT.STRING, 'K', '', 'a' + '\t' * 600 + 'b'))
+    one('newline_at_cut_c', True, F.KVDef('k', VT.STRING, 'K', '', 'a' * 999 + '\n' + 'b' * 50))
+    one('newline_at_cut_p', False, F.KVDef('k', VT.STRING, 'K', '', 'a' * 999 + '\n' + 'b' * 50))
+    one('early_newline', True, F.KVDef('k', VT.STRING, 'K', '', 'ab\n' + 'c' * 1500))
     one('backslash_at_cut', True, F.KVDef('k', VT.STRING, 'a' * 999 + '\\' + 'tail', '', ''))
     one('all_value_types', True, *[F.KVDef('k_' + vt.name.lower(), vt, vt.name, '1' if vt is not VT.SPAWNFLAGS else '',
                                            '', [] if vt.has_list else None) for vt in VT])
@@ -599,13 +657,14 @@ def main(run, shard=(0, 1)) -> None:
         if mine(i, shard):
             text_case(run, i)
     probe.report(run)
-    if n == 1:
-        probe.check_reached(run)
-    run.require('exports', 'parses', 'entities_compared')
-    if n == 1:
-        run.require('second_exports', 'serialise_calls', 'unserialise_calls', 'lazy_queries', 'dbase_roundtrips',
-                    'binary_dbase_roundtrips', 'long_strings', 'empty_display_names', 'tagged_duplicate_keys',
-                    'aliases', 'texts_with_plus_split')
+    # shards run different engines: reach is summed over the shards through counters, then required as a whole
+    for label_, cnt in probe.counts.items():
+        if cnt:
+            run.count('reach:' + label_, cnt)
+    run.require(*['reach:' + label_ for label_ in probe.counts])
+    run.require('exports', 'parses', 'entities_compared', 'second_exports', 'serialise_calls', 'unserialise_calls',
+                'lazy_queries', 'dbase_roundtrips', 'binary_dbase_roundtrips', 'long_strings', 'empty_display_names',
+                'tagged_duplicate_keys', 'aliases', 'texts_with_plus_split', 'binary_entities_compared')
 
 
 def replay(run, data) -> None:
